@@ -60,3 +60,11 @@ package session
 //@   modifies everything
 //@   ensures[C19] !s.pollMutex.lockw && s.pollMutex.lockr == 0
 //@   ensures[C19] !at_unlock(has(s.poll, addr))
+
+// The update loop refreshes the service list itself, one refresh per directory signal, in the
+// order the signals arrive (opt nospawn: a `go` statement here would let an older snapshot be
+// installed over a newer one, after which lookups of a registered service fail).
+//@ func (s *Session) updateLoop()
+//@   tags C19
+//@   opt nospawn yes
+//@   modifies everything
